@@ -4,4 +4,4 @@ From Coq Require Import Extraction ExtrOcamlBasic List NArith.
 From GmsmVerif Require Import Lib.Outcome Gen.TLSSuites Resume.ResumeModel Agree.AgreeModel Agree.AgreeSpec
   Agree.KeyModel Agree.WireSpec.
 Extraction Language OCaml.
-Extraction "agree_model.ml" honest_run mkA policy_allows reconnect_log r_cls decode_connection gm_key_block gm_prf.
+Extraction "agree_model.ml" honest_run mkA policy_allows reconnect_log r_cls decode_connection gm_key_block gm_prf gm_ekm.
